@@ -145,6 +145,10 @@ Lemma source_shape_ok :
   gen_contains_requires_key_end = true /\
   gen_ih_init_hands_over_blocks_only_if_fresh = true /\
   gen_index_loc_refreshes_cache_for_every_key = true /\
+  gen_ih_values_at_depth_refreshes_iff_recache = true /\
+  gen_ih_every_cache_refresh_guarded_by_recache = true /\
+  gen_ih_methods_refreshing_cache =
+    ["IndexHierarchy.__copy__"%string; "IndexHierarchy.__deepcopy__"%string; "IndexHierarchy.__reversed__"%string; "IndexHierarchy._drop_iloc"%string; "IndexHierarchy._extract_iloc"%string; "IndexHierarchy._sample_and_key"%string; "IndexHierarchy._to_frame"%string; "IndexHierarchy._ufunc_axis_skipna"%string; "IndexHierarchy._ufunc_binary_operator"%string; "IndexHierarchy._ufunc_set"%string; "IndexHierarchy._ufunc_unary_operator"%string; "IndexHierarchy.display"%string; "IndexHierarchy.dtypes"%string; "IndexHierarchy.fillna"%string; "IndexHierarchy.isin"%string; "IndexHierarchy.mloc"%string; "IndexHierarchy.nbytes"%string; "IndexHierarchy.rehierarch"%string; "IndexHierarchy.relabel"%string; "IndexHierarchy.roll"%string; "IndexHierarchy.sort"%string; "IndexHierarchy.to_pandas"%string; "IndexHierarchy.values"%string; "IndexHierarchy.values_at_depth"%string; "IndexHierarchy.via_dt"%string; "IndexHierarchy.via_str"%string; "IndexHierarchyAsType.__call__"%string; "IndexHierarchyGO.__copy__"%string] /\
   gen_go_append_sets_recache = true /\
   gen_go_extend_sets_recache = true.
 Proof. repeat split; reflexivity. Qed.
